@@ -83,6 +83,15 @@ type ValStringer struct{ N int }
 
 func (v ValStringer) String() string { return fmt.Sprintf("stringer-%d", v.N) }
 
+// Cents / Level: numeric user types that print themselves as another number than the one they hold.
+type Cents int64
+
+func (c Cents) String() string { return fmt.Sprintf("%d.%02d", int64(c)/100, int64(c)%100) }
+
+type Level int
+
+func (l Level) String() string { return fmt.Sprintf("%d0", int(l)) }
+
 type ValErrorer struct{ Msg string }
 
 func (v ValErrorer) Error() string { return "errorer:" + v.Msg }
